@@ -32,6 +32,9 @@ theorem subsetPBits_sound (q : Quality) (o : Bool) (p : Bool × Bool) (h : subse
     subst h
     exact (opaque_pbits _ best1 best2 err swap).2
 
+example : subsetPBits .fast true = some (true, true) ∧ subsetPBits .unreasonable true = some (true, true) ∧
+    subsetPBits .high false = none := by decide
+
 /-! ### rotations -/
 
 theorem rotations_forced (px : List Px) (h : bc7RotationForced px = true) : bc7RotationsAllowed px = [0] := by
@@ -112,6 +115,13 @@ theorem rotations_nonempty (px : List Px) (hne : px ≠ []) (h : singleColour px
 example : bc7RotationForced [⟨10, 200, 30, 255⟩, ⟨12, 190, 30, 255⟩] = false ∧
     bc7RotationsAllowed [⟨10, 200, 30, 255⟩, ⟨12, 190, 30, 255⟩] = [1, 2] ∧
     bc7RotationsAllowed [⟨10, 12, 11, 255⟩, ⟨90, 91, 92, 255⟩] = [0] := by decide
+
+/-- the hypotheses of `rotations_unforced_const_alpha` / `rotations_nonempty` are satisfiable (an opaque two-colour
+block that is not grey: nothing forced, `Rotation::None` not among the rotations) -/
+example : bc7RotationForced [⟨10, 200, 30, 255⟩, ⟨12, 190, 30, 255⟩] = false ∧
+    chanConst [⟨10, 200, 30, 255⟩, ⟨12, 190, 30, 255⟩] 3 = some 255 ∧
+    singleColour [⟨10, 200, 30, 255⟩, ⟨12, 190, 30, 255⟩] = none ∧
+    0 ∉ bc7RotationsAllowed [⟨10, 200, 30, 255⟩, ⟨12, 190, 30, 255⟩] := by decide
 
 /-! ### the single-colour block meets its own rule (`bc7Fields` agrees with the layout theorem) -/
 
@@ -259,6 +269,11 @@ theorem bc2_alpha_block (alphas : List Nat) (h : ∀ a ∈ alphas, a ≤ 255) (b
     unfold bc2Px; rw [setA_alpha]; exact e
   · show (toStraight (bc2Px blk p)).2.2.2 = _
     rw [toStraight_alpha]; unfold bc2Px; rw [setA_alpha]; exact e
+
+/-- the hypothesis of `bc2_alpha_block` is satisfiable: the alpha bytes followed by any colour block -/
+example : ∀ i, i < 8 →
+    blkOf (bc2AlphaBlock [0, 8, 9, 25, 26, 127, 128, 255, 254, 246, 247, 17, 34, 51, 68, 85] ++ [1, 2, 3, 4, 5, 6, 7, 8]) i =
+      (bc2AlphaBlock [0, 8, 9, 25, 26, 127, 128, 255, 254, 246, 247, 17, 34, 51, 68, 85]).getD i 0 := by decide
 
 example : bc2AlphaBlock [0, 8, 9, 25, 26, 127, 128, 255, 254, 246, 247, 17, 34, 51, 68, 85] =
     [0x00, 0x11, 0x72, 0xf8, 0xef, 0x1f, 0x32, 0x54] := by decide
